@@ -359,7 +359,30 @@ func IsException(exception *Type, r interface{}) bool {
 
 // FIXME prototype __getattr__ before we do introspection!
 func (e *Exception) M__getattr__(name string) (Object, error) {
+	if name == "value" && e.Base != nil && e.Base.IsSubtype(StopIteration) {
+		return StopIterationValue(e), nil
+	}
 	return e.Args, nil // FIXME All attributes are args!
+}
+
+// StopIterationValue returns the value carried by a StopIteration
+// (the return value of a generator), None if there is none
+//
+// err can be the class, an instance or an ExceptionInfo
+func StopIterationValue(err interface{}) Object {
+	var exc *Exception
+	switch x := err.(type) {
+	case ExceptionInfo:
+		exc, _ = x.Value.(*Exception)
+	case *Exception:
+		exc = x
+	}
+	if exc != nil {
+		if args, ok := exc.Args.(Tuple); ok && len(args) > 0 {
+			return args[0]
+		}
+	}
+	return None
 }
 
 func (e *Exception) M__str__() (Object, error) {
